@@ -138,6 +138,6 @@ CHECKS["C20"] = dict(
     text="A seeded subset of the other checks' kernels is lowered at c++14 (baseline), c++17, c++20, and against generated single-file headers (with and without I/O; thorough: random unit subset, double inclusion) "
          "with no other Au path on the include line; every (kernel, configuration) pair is proved equivalent to the baseline for ALL inputs (same bits, same trap condition); accept/reject parity per kernel and "
          "'every public header compiles on its own (twice)' are observed as lowering-stage facts; container-level comparisons equal the raw-rep comparison in every configuration; closed facts (labels, sizes, traits, constexpr values) are required identical between the clang and the g++ build of the same kernels in every -std; a two-translation-unit program that ODR-uses labels and numeric_limits members and streams quantities "
-         "is built at -O0 by g++ and clang++ at c++14/17/20 against the multi-header tree and the single-file header: every configuration must link, run and print the same text (observed).",
+         "is built at -O0 by g++ and clang++ at c++14/17/20 against the multi-header tree and the single-file header: every configuration must link, run and print the same text, including quantities and points streamed with a pending field width, fill, adjustment and float format (observed).",
     note=TB + "; the symbolic half is clang only (gcc has no IR to encode): the gcc axis is covered by closed-fact parity (g++-built kernels executed natively) and the differential execution in translator validation, which is sampling, not a solver verdict; fwd-declaration agreement is observed only as: the _fwd header followed by the definition compiles.")
 NA["C01"] = NA["C01"]
